@@ -106,6 +106,11 @@ def handle : List String → String
       | some inp => hexOf inp
       | none => "err"
     | _, _, _, _ => "bad-op"
+  | ["rel", b, t] => match b.toNat?, t.toInt? with
+    | some b, some t => match relTimestamp b t with
+      | some ts => s!"ok {ts}"
+      | none => "err"
+    | _, _ => "bad-op"
   | ["win", t, ed, aw, ts] => match t.toInt?, ed.toInt?, aw.toInt?, ts.toNat? with
     | some t, some ed, some aw, some ts => showW (selectKey ⟨t, ed, aw, ts⟩)
     | _, _, _, _ => "bad-op"
